@@ -89,7 +89,8 @@ def region_spec(reg, rid):
 class MotionGen(object):
     """Generates one program."""
 
-    def __init__(self, seed, focus=None, length=None):
+    def __init__(self, seed, focus=None, length=None, regions0=None, new_regions=None,
+                 cfg=None, next_id=0):
         self.rng = random.Random(seed)
         rng = self.rng
         self.seed = seed
@@ -118,6 +119,7 @@ class MotionGen(object):
         # cycle of the program has the same length (quantifier of C04 / C05)
         self.retAmount = rng.choice([127, 254]) if self.useInch else \
             rng.choice([25, 50, 100, 150, 225])
+        given = cfg
         cfg = {"g90e": rng.random() < 0.25, "enter": [], "exit": [], "xg": {}, "at": None}
         if self.useDeferred or rng.random() < 0.2:
             if rng.random() < 0.8:
@@ -137,11 +139,15 @@ class MotionGen(object):
             cfg["at"] = [("Excl", r"^\s*go(\s|$)", "enable_exclusion"),
                          ("Excl", r"^\s*stop(\s|$)", "disable_exclusion"),
                          ("ExcludeRegion", None, "disable_exclusion")]
+        if given is not None:
+            cfg = given
+            self.useDeferred = self.useDeferred and bool(cfg.get("xg"))
         self.cfg = cfg
         self.ghost = Ghost()
-        self.regions = []
+        self.regions = list(regions0 or [])
+        self.fixedNewRegions = new_regions
         self.steps = []
-        self.nextId = 0
+        self.nextId = next_id
 
     # ------------------------------------------------------------------ regions
     def make_region(self):
@@ -165,12 +171,26 @@ class MotionGen(object):
 
     def add_region(self):
         reg = self.make_region()
+        for _ in range(20):
+            # the tool may already be (nearly) on the new disc's border: the next Z-only move
+            # would test that point with float arithmetic
+            saved = self.regions
+            self.regions = [reg]
+            safe = self.disc_safe(self.ghost.p["X"], self.ghost.p["Y"]) and \
+                (self.min_border_distance(self.ghost.p["X"], self.ghost.p["Y"]) >= 0.5 * G_PER_MM
+                 or all(self.ghost.exact[a] for a in "XY"))
+            self.regions = saved
+            if safe:
+                break
+            reg = self.make_region()
         # corners given in arbitrary order (C17: corner order must not matter)
         if reg["t"] == "rect" and self.rng.random() < 0.3:
             reg = dict(reg)
-        self.regions.append(reg)
         self.nextId += 1
-        spec = region_spec(reg, "r%d" % self.nextId)
+        reg = dict(reg)
+        reg["id"] = "r%d" % self.nextId
+        self.regions.append(reg)
+        spec = region_spec(reg, reg["id"])
         if reg["t"] == "rect" and self.rng.random() < 0.3:
             spec["x1"], spec["x2"] = spec["x2"], spec["x1"]
         if reg["t"] == "rect" and self.rng.random() < 0.3:
@@ -185,6 +205,23 @@ class MotionGen(object):
         if not self.regions:
             return 1e9
         return min(border_distance(reg, x, y) for reg in self.regions)
+
+    def disc_safe(self, x, y):
+        """
+        The implementation decides disc membership with hypot() on floats.  That is exact when
+        all numbers involved are integer mm; otherwise a point (nearly) on the border may be
+        rounded either way, so such points are not generated.
+        """
+        for reg in self.regions:
+            if reg["t"] != "circ":
+                continue
+            d2 = (x - reg["cx"]) ** 2 + (y - reg["cy"]) ** 2
+            if abs(math.sqrt(d2) - reg["r"]) >= 0.5:
+                continue
+            integral = all(v % G_PER_MM == 0 for v in (x, y, reg["cx"], reg["cy"], reg["r"]))
+            if not integral:
+                return False
+        return True
 
     def axis_exact_after(self, axis, moved):
         """Will the implementation's float for this axis equal the decimal text exactly?"""
@@ -206,12 +243,16 @@ class MotionGen(object):
                     y = rng.choice([reg["y1"], reg["y2"], reg["y1"] - 1, reg["y2"] + 1,
                                     rng.randint(reg["y1"], reg["y2"])])
                 elif want == "border":
-                    # axis extremes and 3-4-5 points of a disc with integer mm parameters
-                    k = reg["r"] // 5
-                    dx, dy = rng.choice([(5 * k, 0), (-5 * k, 0), (0, 5 * k), (0, -5 * k),
-                                         (3 * k, 4 * k), (-4 * k, 3 * k), (4 * k, -3 * k),
-                                         (5 * k + G_PER_MM, 0), (0, -5 * k - G_PER_MM),
-                                         (3 * k + G_PER_MM, 4 * k)])
+                    # axis extremes, and 3-4-5 points if they have integer mm offsets (hypot of
+                    # integer-valued floats is exact, anything else may round either way)
+                    r = reg["r"]
+                    choices = [(r, 0), (-r, 0), (0, r), (0, -r), (r + G_PER_MM, 0),
+                               (0, -r - G_PER_MM)]
+                    if r % (5 * G_PER_MM) == 0:
+                        k = r // 5
+                        choices += [(3 * k, 4 * k), (-4 * k, 3 * k), (4 * k, -3 * k),
+                                    (3 * k + G_PER_MM, 4 * k)]
+                    dx, dy = rng.choice(choices)
                     x, y = reg["cx"] + dx, reg["cy"] + dy
                 else:
                     x = rng.randint(box[0], box[2])
@@ -296,6 +337,8 @@ class MotionGen(object):
                 continue
             margin = self.min_border_distance(newp["X"], newp["Y"])
             if not exact and margin < 0.5 * G_PER_MM:
+                continue
+            if not self.disc_safe(newp["X"], newp["Y"]):
                 continue
             if self.cleanMode == "avoid" and (self.excluded(newp["X"], newp["Y"])
                                               or margin < 0.5 * G_PER_MM):
@@ -523,6 +566,8 @@ class MotionGen(object):
             nreg = 0
         elif self.cleanMode:
             nreg = rng.choice([1, 2, 3])
+        if self.fixedNewRegions is not None:
+            nreg = self.fixedNewRegions
         early = nreg if not self.lateRegions else rng.randint(0, nreg)
         for _ in range(early):
             self.add_region()
